@@ -423,7 +423,7 @@ impl Prop for C02 {
     fn runs(&self, tier: Tier) -> u64 {
         let exh = tiny_sessions().len() as u64 * CHUNKS_PER_SESSION;
         exh + match tier {
-            Tier::Quick => 6000,
+            Tier::Quick => 20_000,
             Tier::Thorough => 200_000,
         }
     }
